@@ -21,7 +21,7 @@ func init() {
 		Run:     runC05,
 		Explanation: "Static decision, in both offset-width builds, of the structural conditions under which the needle-map implementations and the reload agree: (1) LOCKSTEP: every read/write of the offset part (or of a whole element) of CompactSection.values/overflow has a twin access of valuesExtra/overflowExtra at the structurally same index in the same function, and appends are paired; " +
 			"(2) ORDER-delete-return: no function of the compact map returns a size that was read after the negation that marks the entry deleted; (3) ABS-counters: the set of counters updated by NeedleMap.Put/Delete (through logPut/logDelete) equals the set updated by the .idx replay in doLoading on every abstract point {new: live, empty, tombstone} x {old: absent, live, deleted}; " +
-			"(4) SIB-needlemapper: the Put/Delete implementations log the metric, append to the index file first (tombstone size constant for deletes) and propagate its error; the LevelDB value slices use the offset/size constants. The search/overflow algorithm of CompactSection itself is not decided.",
+			"(4) SIB-needlemapper: the Put/Delete implementations log the metric, append to the index file first (tombstone size constant for deletes) and propagate its error; the LevelDB value slices use the offset/size constants. The search/overflow algorithm of CompactSection itself is not decided. Also decided (GUARD-far-key): CompactMap hands a key to a section only on the edge where the untruncated 64-bit distance from the section start fits 32 bits (Set opens a new section otherwise, Get and Delete answer not found).",
 		Assumptions: []string{"CompactMap.Set returns the previous (possibly negated) size, CompactMap.Delete returns the removed size or 0 — the abstract semantics the counter tables are evaluated under", "an index expression read twice inside one statement denotes the same element"},
 		Trusted:     baseTrusted,
 	})
